@@ -96,6 +96,7 @@ func (g gsCmd) coq() string {
 }
 
 type trRig struct {
+	wedged  bool // a read of the transport's bookkeeping did not return: a library lock was left held
 	res     *suiteResult
 	self    peer.ID
 	selfTok int
@@ -269,6 +270,7 @@ type gsDouble struct {
 	r            *trRig
 	stores       map[string]bool // registered persistence options (as real graphsync keeps them)
 	beforeCancel func(graphsync.RequestID)
+	slowFinish   time.Duration // a cancelled outgoing request ends this long after Cancel returned
 }
 
 func extMap(exts []graphsync.ExtensionData) map[graphsync.ExtensionName]datamodel.Node {
@@ -368,6 +370,14 @@ func (g *gsDouble) Cancel(ctx context.Context, id graphsync.RequestID) error {
 		hook(id)
 	}
 	g.record(gsCmd{Kind: "GCancel", Rid: tok})
+	g.r.mu.Lock()
+	slow := g.slowFinish
+	g.r.mu.Unlock()
+	if slow > 0 {
+		// like the real graphsync: Cancel returns once the cancellation is under way, the request winds down later
+		go func() { time.Sleep(slow); g.finish(tok, graphsync.RequestClientCancelledErr{}) }()
+		return nil
+	}
 	g.finish(tok, graphsync.RequestClientCancelledErr{})
 	return nil
 }
@@ -783,8 +793,29 @@ func writeTCases(dir, name string, cases []tCaseOut) {
 	}
 }
 
+// snapshot reads the transport's bookkeeping through the hook, which takes the transport's and the channels' locks
+// for reading: if a lock was left held by an earlier call the read never returns (ok = false after 4s)
+func (r *trRig) snapshot() (chans map[datatransfer.ChannelID]dtgs.VerifChannel, reqs map[graphsync.RequestID]datatransfer.ChannelID, ok bool) {
+	if r.wedged {
+		return nil, nil, false
+	}
+	type res struct {
+		c map[datatransfer.ChannelID]dtgs.VerifChannel
+		q map[graphsync.RequestID]datatransfer.ChannelID
+	}
+	ch := make(chan res, 1)
+	go func() { c, q := r.tr.VerifSnapshot(); ch <- res{c, q} }()
+	select {
+	case x := <-ch:
+		return x.c, x.q, true
+	case <-time.After(4 * time.Second):
+		r.wedged = true
+		return nil, nil, false
+	}
+}
+
 func (r *trRig) snapshotCoq() (string, string) {
-	chans, reqs := r.tr.VerifSnapshot()
+	chans, reqs, _ := r.snapshot()
 	type ce struct {
 		k chidTok
 		s string
